@@ -714,11 +714,19 @@ impl Display for LinearModel {
         } else {
             "".to_string()
         };
-        write!(
-            f,
-            "{} {}\ns.t.\n{}{}",
-            self.optimization_type, objective, constraints, domain
-        )
+        match self.optimization_type {
+            // `solve` takes no expression: printing the placeholder objective would not parse
+            OptimizationType::Satisfy => write!(
+                f,
+                "{}\ns.t.\n{}{}",
+                self.optimization_type, constraints, domain
+            ),
+            _ => write!(
+                f,
+                "{} {}\ns.t.\n{}{}",
+                self.optimization_type, objective, constraints, domain
+            ),
+        }
     }
 }
 
